@@ -683,6 +683,10 @@ def stepLine (s : DState) (line : String) : DState :=
       let m := scale k.intTy h l
       let s := if m == r then s else s.divergeK s!"Scale {k.toString} h={h} l={l}" (toString m) (toString r)
       if !Spec.C16.scaleOK k.intTy h l r then s.fail "C16" "scale" s!"kind={k.toString} h={h} l={l} r={r}" else s
+  else if cmd == "c16panic" then
+    -- a bit-depth function or Scale panicked: they are total (C16 gives their value for every depth)
+    let s := { s with nKern := s.nKern + 1, nPred := s.nPred + 1 }
+    s.fail "C16" "panics" (" ".intercalate (t.toList.drop 1))
   else if cmd == "freq" then
     { s with freq := some (decodeBits f64 (nat! (t[1]?.getD "0"))), fprev := none }
   else if cmd == "dur" || cmd == "ev" then
